@@ -1,4 +1,5 @@
 \* C20: table generation - one JSON line per abstract instance (no invariant: the rows carry the prediction)
 CONSTANT Slices = {"err", "opts", "upd_enum", "upd_err", "upd_pres", "op_enum", "op_head", "op_det", "op_combo", "out", "inp", "decode", "factory"}
+CONSTANT Fixed = TRUE        \* default; checks/c20.py substitutes spec/variant.json "WireFixed"
 INIT InitDump
 NEXT Next
